@@ -4,6 +4,10 @@ use std::fmt::Write;
 
 pub type VarId = u32;
 
+/// Variable ids from here on denote anonymous `_` variables of the program (`LTerm::any()`):
+/// each id occurs once; for the reference model they are ordinary distinct variables.
+pub const WILD_BASE: VarId = 2_000_000;
+
 #[derive(Clone, Copy, PartialEq, Eq, Hash, PartialOrd, Ord, Debug, serde::Serialize, serde::Deserialize)]
 pub enum Kind {
     Pair,   // #[compound] struct Pair(LTerm, LTerm)
@@ -189,6 +193,8 @@ pub fn var_name(v: VarId, nq: usize) -> String {
     if nq == ANSWER {
         // reified variables of an answer
         format!("_{}", v)
+    } else if v >= WILD_BASE {
+        "_".to_string()
     } else if (v as usize) < nq {
         format!("q{}", v)
     } else {
@@ -400,6 +406,10 @@ pub enum Goal {
     Project(Vec<VarId>, Vec<Goal>),
     NonRel(NonRel),
     For(VarId, Vec<Term>, Vec<Goal>),
+    /// `for x in &t { body }` where the collection is ONE term that is a proper list by the time
+    /// the goal is solved (used below `project |t| { .. }`: the collection is known at solve
+    /// time only)
+    ForIn(VarId, Term, Vec<Goal>),
     Match(MatchKind, Term, Vec<Arm>),
     /// fngoal appending `id` to the user-state trace
     Probe(u32),
@@ -593,6 +603,11 @@ fn fmt_goal(g: &Goal, nq: usize, s: &mut String) {
             fmt_goals(body, nq, s);
             s.push_str(" }");
         }
+        Goal::ForIn(x, coll, body) => {
+            let _ = write!(s, "for {} in &{} {{ ", var_name(*x, nq), t(coll, nq));
+            fmt_goals(body, nq, s);
+            s.push_str(" }");
+        }
         Goal::Match(k, tm, arms) => {
             let name = match k {
                 MatchKind::Match => "match",
@@ -642,7 +657,7 @@ impl Goal {
     pub fn count(&self) -> usize {
         let sub = |gs: &Vec<Goal>| gs.iter().map(|g| g.count()).sum::<usize>();
         1 + match self {
-            Goal::Conj(gs) | Goal::Fresh(_, gs) | Goal::Closure(gs) | Goal::Dfs(gs) | Goal::Onceo(gs) | Goal::Anyo(gs) | Goal::Project(_, gs) | Goal::For(_, _, gs) => sub(gs),
+            Goal::Conj(gs) | Goal::Fresh(_, gs) | Goal::Closure(gs) | Goal::Dfs(gs) | Goal::Onceo(gs) | Goal::Anyo(gs) | Goal::Project(_, gs) | Goal::For(_, _, gs) | Goal::ForIn(_, _, gs) => sub(gs),
             Goal::Conde(c) | Goal::Conda(c) | Goal::Condu(c) => c.iter().map(sub).sum(),
             Goal::Match(_, _, arms) => arms.iter().map(|a| sub(&a.body)).sum(),
             _ => 0,
@@ -679,6 +694,7 @@ impl Goal {
             }
             Goal::NonRel(NonRel::IsGroundInt(a)) | Goal::NonRel(NonRel::IsGroundTerm(a)) | Goal::Ticket(a) | Goal::ReadUser(a) => f(a),
             Goal::For(_, coll, _) => coll.iter().for_each(|a| f(a)),
+            Goal::ForIn(_, coll, _) => f(coll),
             Goal::Match(_, tm, arms) => {
                 f(tm);
                 for a in arms {
@@ -692,7 +708,7 @@ impl Goal {
 
     pub fn for_children(&self, f: &mut dyn FnMut(&Goal)) {
         match self {
-            Goal::Conj(gs) | Goal::Fresh(_, gs) | Goal::Closure(gs) | Goal::Dfs(gs) | Goal::Onceo(gs) | Goal::Anyo(gs) | Goal::Project(_, gs) | Goal::For(_, _, gs) => gs.iter().for_each(|g| f(g)),
+            Goal::Conj(gs) | Goal::Fresh(_, gs) | Goal::Closure(gs) | Goal::Dfs(gs) | Goal::Onceo(gs) | Goal::Anyo(gs) | Goal::Project(_, gs) | Goal::For(_, _, gs) | Goal::ForIn(_, _, gs) => gs.iter().for_each(|g| f(g)),
             Goal::Conde(c) | Goal::Conda(c) | Goal::Condu(c) => c.iter().for_each(|gs| gs.iter().for_each(|g| f(g))),
             Goal::Match(_, _, arms) => arms.iter().for_each(|a| a.body.iter().for_each(|g| f(g))),
             _ => {}
@@ -702,7 +718,7 @@ impl Goal {
     pub fn visit_binders(&self, f: &mut dyn FnMut(VarId)) {
         match self {
             Goal::Fresh(vs, _) | Goal::Project(vs, _) => vs.iter().for_each(|v| f(*v)),
-            Goal::For(x, _, _) => f(*x),
+            Goal::For(x, _, _) | Goal::ForIn(x, _, _) => f(*x),
             _ => {}
         }
         self.for_children(&mut |g| g.visit_binders(f));
